@@ -263,7 +263,13 @@ impl SignBus for SharedVBus {
     }
 }
 
+pub static ROTATE_LOG_LEVEL: std::sync::atomic::AtomicBool = std::sync::atomic::AtomicBool::new(false);
+
 pub fn eval_case(line: &str) -> String {
+    if ROTATE_LOG_LEVEL.load(std::sync::atomic::Ordering::Relaxed) {
+        let h = line.bytes().fold(0xcbf29ce484222325u64, |h, b| (h ^ b as u64).wrapping_mul(0x100000001b3));
+        log::set_max_level([log::LevelFilter::Off, log::LevelFilter::Warn, log::LevelFilter::Off, log::LevelFilter::Error, log::LevelFilter::Info][(h % 5) as usize]);
+    }
     // Building the case's inputs through the public API can itself panic or be refused when the
     // implementation is wrong (e.g. a 255-byte Data); that is a result, not a harness failure.
     guarded(|| eval_case_inner(line)).unwrap_or_else(|| "PANIC".to_string())
